@@ -139,7 +139,8 @@ pub fn gen_entry(r: &mut Rng, tier: Tier, big_ok: &mut bool) -> EntryKind {
             EntryKind::Standard { blocks: gen_blocks(r, t), fill: r.next_u64() }
         }
         5..=6 => {
-            let n_mips = if r.chance(1, 3) { 1 } else { 1 + r.below(13) as usize };
+            // (a texture header has room for 13 surfaces; the entry's own count is a free 32-bit field)
+            let n_mips = if r.chance(1, 3) { 1 } else { 1 + r.below(17) as usize };
             let mut mips = vec![];
             for _ in 0..n_mips {
                 let t = (gen_total(r, tier, big_ok) / 2).max(1).min(120_000);
